@@ -67,6 +67,13 @@ func (e *Engine) setupIntrinsics() {
 		}
 		return BVC(64, uint64(v))
 	}
+	n[p+"vpCaseOr"] = func(e *Engine, st *State, fn *ssa.Function, a []Value) Value {
+		name := argStr(a[0])
+		if v, ok := e.cfg.Case[name]; ok {
+			return BVC(64, uint64(v))
+		}
+		return a[1]
+	}
 	n[p+"vpByte"] = func(e *Engine, st *State, fn *ssa.Function, a []Value) Value {
 		name := argStr(a[0])
 		t := Var(name, BV(8))
